@@ -24,7 +24,10 @@ logging.disable(logging.CRITICAL)
 ROBUST = os.path.join(SPECS, "robust")
 ALL_TRAVS = ["resolve1", "accessor", "resolve_all", "getobj", "xrefchain", "pagetree", "numtree", "nametree", "outline"]
 ENTRY_TRAVS = ["resolve1", "accessor", "resolve_all", "getobj", "xrefchain", "pagetree", "numtree"]   # reachable from the entry points
-GUARD_DEVS = {t: "No%sGuard" % t for t in ALL_TRAVS if t != "pagetree"}
+# the Dev switch (carried by a known finding) that says "this traversal has no cycle guard in the code"
+GUARD_DEVS = {"resolve1": "Resolve1NoCycleGuard", "accessor": "Resolve1NoCycleGuard", "resolve_all": "ResolveAllNoGuard",
+              "getobj": "GetobjNoReentryGuard", "xrefchain": "XRefChainNoGuard", "numtree": "NumTreeNoGuard",
+              "nametree": "NameTreeNoGuard", "outline": "OutlineNoGuard"}
 N = Name
 CONTENT = b"BT /F1 12 Tf 72 700 Td (graph) Tj ET\n"
 
@@ -238,8 +241,10 @@ def realise_graph(g, trav):
     if trav == "accessor":
         return _plain_doc(extra, page_extra={"Rotate": start}), "entry"
     if trav == "resolve_all":
-        fd = {"Type": N("FontDescriptor"), "FontName": N("Helvetica"), "Flags": 32, "FontBBox": start}
-        return _plain_doc(extra, font_extra={"FontDescriptor": fd, "FirstChar": 32, "LastChar": 32, "Widths": [500]}), "entry"
+        # (not one of the standard 14 fonts: their built-in metrics would be used instead of the descriptor)
+        fd = {"Type": N("FontDescriptor"), "FontName": N("VerifFont"), "Flags": 32, "FontBBox": start}
+        return _plain_doc(extra, font_extra={"BaseFont": N("VerifFont"), "FontDescriptor": fd, "FirstChar": 32,
+                                             "LastChar": 32, "Widths": [500]}), "entry"
     if trav == "getobj":
         return _plain_doc(extra, page_extra={"Contents": start}), "entry"
     if trav == "pagetree":
@@ -305,7 +310,7 @@ def _direct_api(data, how, meter):
 
 
 def run_graph_case(g, trav, meter):
-    """-> (class: ends | hang | recursion, outcome keys seen)"""
+    """-> (class: ends | diverges, outcome keys seen, bytes)"""
     data, how = realise_graph(g, trav)
     if how == "entry":
         ocs = [oc for (_, oc, _, _) in faultrun.run_all(data)]
@@ -315,7 +320,7 @@ def run_graph_case(g, trav, meter):
     for oc in ocs:
         c = oc.split(":")[0]
         if c in ("hang", "recursion"):
-            cls = c
+            cls = "diverges"       # which of the two limits is met first depends on the size of the document
     return cls, ocs, data
 
 
@@ -346,6 +351,7 @@ def run_refgraph(ck):
     thorough = ck.tier == "thorough"
     dev = [d for d in active("robust") if d in GUARD_DEVS.values()]
     coded_guards = ["pagetree"] + [t for t, d in GUARD_DEVS.items() if d not in dev]
+    ck.extra["refgraph_deviations_modelled_as_coded"] = dev
     ck.extra["refgraph_guards_as_coded"] = coded_guards
     spaces = [(3, 2, ALL_TRAVS), (4, 1, ALL_TRAVS)] if thorough else [(2, 2, ALL_TRAVS), (3, 1, ALL_TRAVS)]
     if thorough:
@@ -404,7 +410,7 @@ def run_refgraph(ck):
     with ctx.Pool(min(16, os.cpu_count() or 4)) as pool:
         for res in pool.imap_unordered(_graph_work, chunks):
             for (r, cls, ocs, dlen) in res:
-                model = r["status"] if r["status"] in ("hang", "recursion") else "ends"
+                model = "diverges" if r["status"] in ("hang", "recursion") else "ends"
                 entry = r["trav"] in ENTRY_TRAVS
                 cyc = model != "ends" or cls != "ends"
                 ck.case(len(ocs), ("graph", r["trav"], json.dumps(r["g"])) if cyc or any(v["k"] != "leaf" for v in r["g"]) else None)
@@ -417,7 +423,11 @@ def run_refgraph(ck):
                         ck.violation(oc, "traversal %s over graph %s: %s (model as coded: %s)"
                                      % (r["trav"], json.dumps(r["g"]), oc, r["status"]), case)
                     else:
+                        # get_outlines / lookup_name are not reached by the extraction entry points: outside the
+                        # property as stated.  Listed (optional) findings are counted, anything else is a note.
                         supp[oc] = supp.get(oc, 0) + 1
+                        if ck.is_known("supplementary:" + oc):
+                            ck.violation("supplementary:" + oc, "", case)
                 if cls == model:
                     agree += 1
                 else:
